@@ -678,3 +678,40 @@ Fixpoint holds (c : cond) (o : obj) : option bool :=
       | r => r
       end
   end.
+
+(* ------------------------------------------------------------------ *)
+(* decision skeletons: the control flow of the predicate / constraint bodies over abstract
+   boolean inputs.  Gen/NarrowPreds.v is translated from the Python source on every run and
+   proved equal to these (Properties/C02.v); Proofs/NarrowSkel.v proves that the model's
+   predicates above are these skeletons applied to the model's primitive tests. *)
+Inductive pres := RDrop | RValue | RPattern.
+Inductive ctype := T_is_instance | T_is_value | T_is_value_object | T_is_truthy | T_predicate
+                 | T_add_annotation | T_one_of | T_all_of.
+Inductive eqop := OIs | OIsNot | OEqual | ONotEqual.
+
+Definition isassignable_skel (ov asg univ po positive : bool) : pres :=
+  if positive then
+    (if negb ov then RDrop else if asg then (if univ then RPattern else RValue) else RPattern)
+  else if negb po && asg && negb univ then RDrop else RValue.
+
+Definition lenpat_skel (known : bool) (k n : Z) (star positive is_typed is_tuple : bool) : pres :=
+  if known then
+    (let m := if star then Z.geb k n else Z.eqb k n in
+     if Bool.eqb m positive then RValue else RDrop)
+  else if positive && negb star && is_typed && is_tuple then RPattern else RValue.
+
+Definition truthy_skel (sf st positive : bool) : pres :=
+  if positive then (if sf then RDrop else RValue) else (if st then RDrop else RValue).
+
+Definition valueobject_skel (positive : bool) : pres := if positive then RPattern else RValue.
+
+Definition model_operator (positive use_is : bool) : eqop :=
+  match positive, use_is with
+  | true, true => OIs | false, true => OIsNot | true, false => OEqual | false, false => ONotEqual
+  end.
+
+Definition model_dispatch : list ctype :=
+  [T_is_instance; T_is_value; T_is_value_object; T_is_truthy; T_predicate; T_add_annotation; T_one_of; T_all_of].
+
+Definition interp (r : pres) (s : sval) (pattern : list sval) : list sval :=
+  match r with RDrop => [] | RValue => [s] | RPattern => pattern end.
